@@ -25,6 +25,7 @@ class CPADistinguisherMixin(DistinguisherMixin):
             self.ey = _np.zeros((data_words), dtype=self.precision)
             self.ey2 = _np.zeros((data_words), dtype=self.precision)
             self.exy = _np.zeros((data_words, trace_size), dtype=self.precision)
+            self._extrema = None
         except ValueError as e:
             raise ValueError(f'Trace size and data words are too large to proceed with accumulation for CPA: {e}')
 
@@ -36,6 +37,11 @@ class CPADistinguisherMixin(DistinguisherMixin):
         _data = data.astype(self.precision)
         logger.info(f'Start updating accumulators for {self.__class__.__name__} with traces {traces.shape} and data {data.shape}.')
 
+        if traces.shape[0] > 0:
+            extrema = (traces.min(axis=0), traces.max(axis=0), data.min(axis=0), data.max(axis=0))
+            if self._extrema is not None:
+                extrema = tuple(f(a, b) for f, a, b in zip((_np.minimum, _np.maximum) * 2, self._extrema, extrema))
+            self._extrema = extrema
         self.ey += _np.sum(_data, axis=0)
         self.ey2 += _np.sum(_data ** 2, axis=0)
         self.ex += _np.sum(_traces, axis=0)
@@ -53,7 +59,14 @@ class CPADistinguisherMixin(DistinguisherMixin):
             tmp_result = (xy - (self.ex * (y / self.processed_traces))) / (common_1 * com_2)
             tmp_result[_np.isinf(tmp_result)] = _np.nan
             result[d] = tmp_result.astype(self.precision)
+        result[self._undefined_entries()] = _np.nan
         return result
+
+    def _undefined_entries(self):
+        """Entries whose sample or data word is constant over the processed traces: the correlation is undefined there,
+        whatever the rounding of the accumulators."""
+        x_min, x_max, y_min, y_max = self._extrema
+        return (y_min == y_max)[:, None] | (x_min == x_max)[None, :]
 
     @property
     def _distinguisher_str(self):
@@ -81,7 +94,9 @@ class CPAAlternativeDistinguisherMixin(CPADistinguisherMixin):
         sigma_data = _np.sqrt(self.processed_traces * self.ey2 - (self.ey) ** 2)
         enum = self.processed_traces * self.exy - _np.matmul(self.ey[:, None], self.ex[None, :])
         denom = _np.matmul(sigma_data[:, None], sigma_traces[None, :])
-        return (enum / denom)
+        result = enum / denom
+        result[self._undefined_entries()] = _np.nan
+        return result
 
 
 class CPADistinguisher(_StandaloneDistinguisher, CPADistinguisherMixin):
